@@ -227,3 +227,7 @@ def run(ctx, rep):
     # one-decoder-per-connectivity-data rule (shared rule with C03)
     from .C03 import claimonce
     claimonce(ctx, rep, eng, load_table("c03.json"))
+    from ..nestbound import run_nestbound
+    rep.rules_text.append("NESTBOUND: every decoder function that attaches a child to a self-owning structure (Metadata::AddSubMetadata) is dominated by a rejection `depth > constant`, where depth is a parameter or work-item field that is handed on as depth + 1")
+    n_nb = run_nestbound(ctx, rep)
+    rep.floor("decoder functions that attach nested children", n_nb, 1)
